@@ -236,9 +236,14 @@ def ambient_streams(ctx):
 
         def __getattr__(self, name):
             raise AttributeError(name)
+    class Transcript(io.StringIO):
+        # a stream that knows its size: an EMPTY one is falsy (bool() asks __len__), yet it is the process's stdout like any other
+        def __len__(self):
+            return len(self.getvalue())
+
     docs = [">>> print('x')\nx", ">>> print('x')\ny", ">>> raise ValueError('v')", ">>> raise ValueError('v')\nTraceback (most recent call last):\nValueError: v",
             ">>> import xdoctest\n>>> raise xdoctest.ExitTestException()", ">>> raise SystemExit(3)", ">>> print('never')  # xdoctest: +SKIP"]
-    for mk in (Sink, BadFlush, NoFlushAttr):
+    for mk in (Sink, BadFlush, NoFlushAttr, Transcript):
         for verbose in (0, 1, 2, 3):
             for oe in ('return', 'raise'):
                 for doc in docs:
